@@ -63,12 +63,38 @@ class C10(C01):
                               {"m": "touch", "a": [E(b"k1")], "k": {"expire": E("soon")}},
                               {"m": "get", "a": [E(b"x" * 300)], "k": {}}])
             base["steps"].insert(pos, dict(bad, t="call", tag="rejected-input"))
+        special = rng.random()
+        ck = w["client_kwargs"]
+        if special < 0.12 and "serde" not in ck:
+            # a deserializer that rejects one value of a multi-value reply: the call fails half-way through its reply;
+            # interruptions are placed at every receive position, also past the last one made on this tree
+            ck["serde"] = {"$serde": {"kind": "faildeser", "inner": None}}
+            ks = gen.pick_keys(rng, 3)
+            pos = rng.randrange(max(npre, 1), len(base["steps"]) - 2)
+            base["steps"].insert(pos, {"t": "call", "m": "get_many", "a": [E(ks)], "k": {}, "tag": "deser-target"})
+            base["steps"].insert(pos, {"t": "call", "m": "set_many", "a": [E({k_: b"old-" + bytes([65 + j]) * (1 + 9 * j)
+                                                                               for j, k_ in enumerate(ks)})],
+                                       "k": {"noreply": False}})
+        elif special < 0.24 and ck.get("serde", {}).get("$serde", {}).get("kind", "pickle") == "pickle":
+            # a value that itself begins with the bytes END CR LF, delivered so that one receive ends exactly behind
+            # those five bytes: what the client holds at that moment looks like the end of a reply and is not
+            pfx = codec.dec(ck.get("key_prefix", E(b"")))
+            pfx = pfx.encode() if isinstance(pfx, str) else pfx
+            val = b"END\r\n" + rng.choice([b"WRONG\r\nEND\r\n", b"VALUE k2 0 1\r\nZ", b"tail", b"x" * 70])
+            hdr = len(b"VALUE " + pfx + b"endkey 0 %d\r\n" % len(val))
+            pos = rng.randrange(max(npre, 1), len(base["steps"]) - 2)
+            m = rng.choice(["get", "get_many"])
+            base["steps"].insert(pos, {"t": "call", "m": m, "a": [E(b"endkey" if m == "get" else [b"endkey"])], "k": {},
+                                       "net": {"seg": [hdr + 5, 0]}, "tag": "end-value"})
+            base["steps"].insert(pos, {"t": "call", "m": "set", "a": [E(b"endkey"), E(val)], "k": {"noreply": False}})
+            w["knobs"]["recv_size"] = 4096
         call_steps = [i for i, s in enumerate(base["steps"]) if s["t"] == "call" and i >= npre]
         res = engine.execute(base, ())
         recs = {c.step: c for c in res.calls}
         chosen = sorted(rng.sample(call_steps[:-3], min(len(call_steps) - 3, rng.randint(1, 2))))
         for i in call_steps[:-3]:
-            if base["steps"][i].get("tag") in ("rejected-input", "refused-item") and i not in chosen:
+            if base["steps"][i].get("tag") in ("rejected-input", "refused-item", "deser-target", "end-value") \
+                    and i not in chosen:
                 chosen.append(i)
         out = []
         for i in chosen:
@@ -78,6 +104,8 @@ class C10(C01):
             for ek in EVENTS:
                 cnt = rec.kinds.get(ek, 0)
                 positions = list(range(cnt)) if cnt <= 3 else sorted({0, 1, cnt - 1, rng.randrange(cnt)})
+                if ek == "recv" and cnt and base["steps"][i].get("tag") == "deser-target":
+                    positions = list(range(min(cnt, 6))) + [cnt - 1]
                 if ek == "recv" and cnt:
                     # ... and one / two past the last receive the call makes on this tree: harmless here (the fault
                     # never fires), but a variant of the code that reads on lands in it
@@ -91,6 +119,10 @@ class C10(C01):
                             if when == "partial":      # part of the request left before the interruption
                                 f["sent"] = rng.choice([1, 2, 5, 9, 14, 20, 40])
                             v["steps"][i]["faults"] = [f]
+                            if v["steps"][i].get("tag") == "deser-target":
+                                if ek != "recv":
+                                    continue
+                                v["steps"][i]["faults"] = [{"at": ["deser", rng.choice([0, 0, 1])], "kind": "deser"}, f]
                             out.append(v)
         # two interruptions in one history: the clean-up after the first one must not disable the clean-up after
         # the second (the second lands in a later call's first receive or send)
